@@ -55,7 +55,7 @@ func scramble(v reflect.Value, depth int) int {
 		if !v.IsNil() {
 			el := v.Elem()
 			switch el.Kind() {
-			case reflect.Map, reflect.Slice:
+			case reflect.Map, reflect.Slice, reflect.Ptr:
 				n += scramble(el, depth+1)
 			default:
 				if v.CanSet() {
@@ -281,9 +281,20 @@ func isolationSweep(e *Env, where string) {
 	for _, o := range a1 {
 		scramble(reflect.ValueOf(o), 0)
 	}
-	s1, err := e.db.Search(&Doc{}, "I64", "!=", int64(-123456789)).Collect()
+	held := e.db.Search(&Doc{}, "I64", "!=", int64(-123456789))
+	s1, err := held.Collect()
 	if err != nil {
 		e.failf("%s: Search: %v", where, err)
+	}
+	// the same search value collected again hands out other memory
+	if s1b, err := held.Collect(); err == nil {
+		for i := range s1b {
+			for j := range s1 {
+				if sh := shared(s1b[i], s1[j]); sh != "" {
+					e.failf("%s: one search value collected twice: the results share memory at %s", where, sh)
+				}
+			}
+		}
 	}
 	for _, o := range s1 {
 		scramble(reflect.ValueOf(o), 0)
@@ -384,6 +395,14 @@ func init() {
 			if respare(reflect.ValueOf(arg), 0) > 0 {
 				e.flag("empty-slice-with-spare-capacity-stored")
 			}
+			// an interface{} slot may hold a POINTER to what it would otherwise hold (same JSON)
+			if m, ok := arg.Any.(map[string]interface{}); ok && len(m)%2 == 1 {
+				arg.Any = &m
+				e.flag("interface-slot-holds-a-pointer")
+			} else if l, ok := arg.Any.([]interface{}); ok && len(l)%2 == 1 {
+				arg.Any = &l
+				e.flag("interface-slot-holds-a-pointer")
+			}
 			// equal pointer targets become ONE target referenced several times (same JSON)
 			var first *Inner
 			for i, p := range arg.SlP {
@@ -427,7 +446,7 @@ func genCfgTwin(g *G, c Config) Config {
 	if g.pct("async2") < 40 {
 		out.Async = &AsyncCfg{Threshold: 1 + g.uni(8, "thr2"), TimeoutMs: 100 * (1 + g.uni(10, "to2"))}
 	}
-	out.Ext = pickU(g, []string{".json", ".obj", ".j", ".data.v1"}, "ext2")
+	out.Ext = pickU(g, []string{".json", ".obj", ".j", ".data.v1", ""}, "ext2")
 	// flip the index of some non-unique paths (constrained ones and the usual query paths)
 	cands := []string{"S", "I64", "In.N", "Pt.S", "Emb.ES", "U8", "F64", "T", "Pt.T"}
 	for k, v := range c.Cons {
